@@ -50,6 +50,10 @@ CHECKS = {
    text='Every reference-valid evolution of the stated alphabets and depths (optionally with a brand-new model so that model creation and deferred SQL are part of the run) is executed through Evolver+EvolveAppTask; then for EVERY effect statement k of the traced run an OperationalError is injected at k; afterwards schema, rows, recorded evolutions, stored signature and migrations must equal the pre-run state, the error must be an EvolutionExecutionError naming statement k, and a fault-free retry must reach the uninterrupted result.',
    note='Faults are raised from connection.execute_wrapper; statements on the bookkeeping tables, django_content_type and PRAGMA foreign_keys are not fault targets (outside the batch). Retry runs in the same process.',
    design='3/C07'),
+ 'C08': dict(level='model_checking', technique='explicit-state BFS over upgrade-run event histories on the real Evolver and mark/wipe commands, against a reference bookkeeping model',
+   text='Breadth-first search to depth 4 (quick) / 6 (thorough) over events {install code version, upgrade all apps, upgrade one app only, upgrade with a fault at the first/last statement, mark-evolution-applied, wipe-evolution} on two-app projects that share evolution labels; after every event the recorded (app,label) rows must equal the reference set without duplicates, new rows must hang on the version saved by that run, nothing is recorded by a failed run, a fresh app executes none of its sequence, and no label executes twice since it was last wiped.',
+   note='Executions are counted per label since its last wipe. States reached through a violating event are not expanded.',
+   design='3/C08'),
  'C09': dict(level='model_checking', technique='exhaustive enumeration of all digraphs <=N nodes on the real DependencyGraph + exhaustive dependency configurations through the real Evolver',
    text='All labelled digraphs on <=4 (quick) / <=5 (thorough) nodes through the real DependencyGraph.get_ordered, checked against an independent Kahn oracle; generated multi-app projects with every single-dependency assignment through the real Evolver, order observed from signals.',
    note='Independent 15-line Kahn implementation is the trusted oracle.',
